@@ -2,6 +2,7 @@ package main
 
 import (
 	"fmt"
+	"go/token"
 	"regexp"
 	"strings"
 
@@ -363,9 +364,11 @@ func ruleCfgPlugins(c *Ctx, rule string) {
 				if and3(s6, s4) != 0 {
 					bad = append(bad, fmt.Sprintf("Load succeeds at %s without establishing that at least one of server4/server6 is configured", c.P.InstrPos(e.Ret)))
 				}
-				for _, v := range []string{"6", "4"} {
-					if ok, _ := histFact(e.St, "nil", regexp.MustCompile(`parseConfig@(?:[\w$]+·)?t\d+\(.*,`+v+`\)$`)); ok != 1 {
-						bad = append(bad, "Load succeeds without parseConfig("+v+") having succeeded")
+				// every parseConfig call on the path succeeded (per-iteration facts of a loop form are checked at the back edge below)
+				for _, k := range sortedKeys(e.St.hist) {
+					f := e.St.hist[k]
+					if f.Kind == "nil" && regexp.MustCompile(`parseConfig@(?:[\w$]+·)?t\d+\(.*\)$`).MatchString(f.X) && !f.Val {
+						bad = append(bad, "Load succeeds although a parseConfig call failed")
 					}
 				}
 				if ok, _ := histFact(e.St, "nil", regexp.MustCompile(`ReadInConfig@(?:[\w$]+·)?t\d+\(`)); ok != 1 {
@@ -382,6 +385,25 @@ func ruleCfgPlugins(c *Ctx, rule string) {
 				if c0N != 1 {
 					bad = append(bad, fmt.Sprintf("error return at %s also returns a configuration", c.P.InstrPos(e.Ret)))
 				}
+			}
+		}
+		// parseConfig is called for exactly the versions 6 and 4, and its error is never ignored
+		if cs, ok := paramConsts(c.P, pc, 1, 0, map[string]bool{}); !ok || len(cs) != 2 || !cs["4"] || !cs["6"] {
+			bad = append(bad, fmt.Sprintf("parseConfig is not called with exactly the protocol versions 4 and 6 (%v)", cs))
+		}
+		for _, site := range c.P.CallersOf(pc) {
+			call, ok := site.(*ssa.Call)
+			if !ok || site.Parent() != ld {
+				continue
+			}
+			checked := false
+			for _, r := range *call.Referrers() {
+				if bo, ok := r.(*ssa.BinOp); ok && (bo.Op == token.NEQ || bo.Op == token.EQL) {
+					checked = true
+				}
+			}
+			if !checked {
+				bad = append(bad, fmt.Sprintf("the error of parseConfig at %s is not examined", c.P.InstrPos(call)))
 			}
 		}
 		if len(bad) > 0 || nS == 0 {
